@@ -2154,7 +2154,7 @@ func CopyQuery(query *Query) *Query {
 		from:              query.from,
 		groupDefinition:   query.groupDefinition,
 		havingDefinition:  query.havingDefinition,
-		whereDefinition:   query.havingDefinition,
+		whereDefinition:   query.whereDefinition,
 		selectDefinition:  query.selectDefinition,
 		limitDefinition:   query.limitDefinition,
 		offsetDefinition:  query.offsetDefinition,
